@@ -725,6 +725,10 @@ class SchemaValidator:
             f"{self._context(path)}: the value of property {json.dumps(ancestor_source)} must reference {an_ancestor} of {json.dumps(descendant_ref)}, got {json.dumps(ancestor_ref)}"
         ]
 
+        if ancestor_refs is not None and descendant_ref in ancestor_refs:
+            # prevent circular dependency false positive
+            ancestor_refs.remove(descendant_ref)
+
         descendant_type = utils.parse_ref_type(descendant_ref)
         if descendant_type == "action":
             if descendant_ref not in self._action_checkpoint_refs:
@@ -754,10 +758,6 @@ class SchemaValidator:
         else:
             if ancestor_refs is None:
                 raise Exception("must specify either ancestor_ref or ancestor_refs")
-            else:
-                ancestor_refs.remove(
-                    descendant_ref
-                )  # prevent circular dependency false positive
 
         def validate_has_ancestor_recursive(checkpoint_ref, ancestor_ref):
             ancestor_ref = self._normalize_ref(utils.reduce_ref(ancestor_ref))
@@ -1156,48 +1156,15 @@ class SchemaValidator:
             return []
 
         def resolve_thread_scope_recursive(thread_group):
-            thread_group_id = str(thread_group["id"])
-            # get the scope of the thread group
+            # thread scopes are resolved when the schema is collected
+            # (None when the thread groups enclosing this one cannot be resolved)
             thread_group_ref = utils.as_ref(
                 thread_group["id"], "thread_group", value_is_id=True
             )
-            if self._thread_groups[thread_group_ref].scope is not None:
-                return self._thread_groups[thread_group_ref].scope
+            if thread_group_ref not in self._thread_groups:
+                return None
 
-            if "context" not in thread_group:
-                # it's a top-level thread group
-                self._thread_groups[thread_group_ref].scope = thread_group_id
-                return thread_group_id
-            else:
-                # it's a nested thread group
-                if utils.is_template_entity_reference(
-                    thread_group, "context", "thread_group"
-                ):
-                    # resolve all parent thread groups first
-                    parent_thread_group_ref = self._normalize_ref(
-                        thread_group["context"]
-                    )
-                    if parent_thread_group_ref not in self._thread_groups:
-                        return None  # cannot resolve parent thread scope
-
-                    if (
-                        self._thread_groups[parent_thread_group_ref].scope is None
-                        and resolve_thread_scope_recursive(
-                            thread_group=self._resolve_global_ref(
-                                parent_thread_group_ref
-                            )
-                        )
-                        is None
-                    ):
-                        return None  # could not resolve parent thread scope
-
-                    # record the thread_group and set its scope
-                    scope = f"{self._thread_groups[parent_thread_group_ref].scope}.{thread_group_id}"
-                    self._thread_groups[thread_group_ref].scope = scope
-
-                    return scope
-
-                return None  # cannot resolve scope
+            return self._thread_groups[thread_group_ref].scope
 
         errors = []
 
